@@ -222,7 +222,7 @@ impl Check for BoundCheck {
         "C14/boundary".into()
     }
     fn classes(&self) -> &'static [&'static str] {
-        &["coordinate outside", "coordinate exactly on a bound", "coordinate far outside (>= 1000 widths)", "coordinate on the upper bound", "float neighbour of a bound", "all inside"]
+        &["coordinate outside", "coordinate exactly on a bound", "coordinate far outside (>= 1000 widths)", "coordinate on the upper bound", "float neighbour of a bound", "all inside", "an evaluated clone of the individual lies in the population below"]
     }
     fn oracle(&self, c: &BoundCase) -> Outcome {
         let mut cl = 0;
@@ -260,7 +260,7 @@ fn apply_inner(op: BOp, dom: Vec<Range<f64>>, xs: Vec<f64>, seed: u64, other: Ve
     std::thread::spawn(move || {
         let r = catch(|| {
             let problem = RealP::with_domain(dom, RealKind::Sphere);
-            let mut st = state_with::<RealP>(vec![vec![Individual::new_unevaluated(other.clone())], vec![Individual::new(xs, 1.0.try_into().unwrap())]], seed);
+            let mut st = state_with::<RealP>(vec![vec![if other.iter().map(|x| x.to_bits()).eq(xs.iter().map(|x| x.to_bits())) { Individual::new(other.clone(), 1.0.try_into().unwrap()) } else { Individual::new_unevaluated(other.clone()) }], vec![Individual::new(xs, 1.0.try_into().unwrap())]], seed);
             let comp: Box<dyn Component<RealP>> = match op {
                 BOp::Saturation => Saturation::new(),
                 BOp::Toroidal => Toroidal::new(),
@@ -317,7 +317,12 @@ fn bound_oracle(c: &BoundCase, cl: &mut u64) -> Result<(), Failure> {
         *cl |= 32;
     }
     let at = format!("{name} on x = {xs:?} with domain {dom:?} (seed {})", c.seed);
-    let other = vec![1e9, -1e9];
+    // one case in five: the population below holds an evaluated clone of the individual under repair (what a cloning
+    // selection leaves there); repair looks at the individual it is given, not at its neighbours on the stack
+    let other = if c.seed % 5 == 4 { xs.clone() } else { vec![1e9, -1e9] };
+    if c.seed % 5 == 4 {
+        *cl |= 64;
+    }
     let out = match apply(c.op, dom.clone(), xs.clone(), c.seed, other.clone()) {
         None => {
             let on_upper = dom.iter().zip(&xs).any(|(r, x)| *x == r.end);
